@@ -133,8 +133,21 @@ pub fn n_variants(domain: Domain, thorough: bool, iterative: bool) -> usize {
     }
 }
 
+/// class index -> label value; indices beyond the alphabet (the class-count family has up to 7
+/// classes) continue the alphabet upwards with its last step
 fn relabel(y: &[f64], map: &[f64]) -> Vec<f64> {
-    y.iter().map(|c| map[*c as usize]).collect()
+    let last = map[map.len() - 1];
+    let step = (last - map[map.len() - 2]).abs().max(1.0);
+    y.iter()
+        .map(|c| {
+            let i = *c as usize;
+            if i < map.len() {
+                map[i]
+            } else {
+                map.iter().cloned().fold(f64::MIN, f64::max).max(last) + (i - map.len() + 1) as f64 * step
+            }
+        })
+        .collect()
 }
 
 /// Value variant `v` of a base data set (base labels are 0..k-1, base features small integers).
@@ -376,7 +389,7 @@ impl Micro {
 // labels 0..k-1), so that `variant` applies unchanged.
 
 /// Tags of the edge data sets (a subject lists the tags it is fitted on in the edge family).
-pub const EDGE_TAGS: [&str; 4] = ["plain", "two-rows", "const-target", "rank-one"];
+pub const EDGE_TAGS: [&str; 5] = ["plain", "two-rows", "const-target", "rank-one", "class-counts"];
 
 /// The edge catalogue: (tag, data set).
 /// * `plain`: the six catalogue data sets unchanged (for subjects whose CONFIGURATION is the
@@ -418,6 +431,49 @@ pub fn edge_catalogue(thorough: bool) -> Vec<(&'static str, Data)> {
                 y_reg: (0..n).map(|i| (2 * i + i % 2) as f64).collect(),
                 y_bin: (0..n).map(|i| if i >= n / 2 { 1.0 } else { 0.0 }).collect(),
                 y_multi: (0..n).map(|i| (i % 3) as f64).collect(),
+                unit: 1.0,
+                off: 0.0,
+            },
+        ));
+    }
+    // `class-counts`: 4 and 7 classes with EVERY vector of class sizes summing to 7 (4 classes: 20
+    // compositions) plus a few 7-class size vectors; the fitted priors count/n are then sums of
+    // several rounded fractions (round 7: a loader that insists on |sum - 1| < eps rejects some)
+    fn compositions(total: usize, k: usize) -> Vec<Vec<usize>> {
+        if k == 1 {
+            return vec![vec![total]];
+        }
+        let mut out = Vec::new();
+        for first in 1..=(total - (k - 1)) {
+            for mut rest in compositions(total - first, k - 1) {
+                let mut c = vec![first];
+                c.append(&mut rest);
+                out.push(c);
+            }
+        }
+        out
+    }
+    let mut size_vectors = compositions(7, 4);
+    if thorough {
+        size_vectors.extend(compositions(9, 4));
+        size_vectors.extend(compositions(9, 7));
+    }
+    size_vectors.extend(vec![vec![1, 4, 6, 5, 1, 1, 1], vec![1, 2, 4, 4], vec![2, 3, 1, 1, 3, 2, 1], vec![3, 1, 1, 1, 1, 1, 3]]);
+    for sizes in size_vectors {
+        let n: usize = sizes.iter().sum();
+        let mut y_multi: Vec<f64> = Vec::new();
+        for (c, sz) in sizes.iter().enumerate() {
+            y_multi.extend(std::iter::repeat(c as f64).take(*sz));
+        }
+        let x: Vec<Vec<f64>> = (0..n).map(|i| vec![(i % 3) as f64, ((i * 2 + i / 3) % 4) as f64]).collect();
+        v.push((
+            "class-counts",
+            Data {
+                name: format!("edge-class-counts-{}", sizes.iter().map(|s| s.to_string()).collect::<Vec<_>>().join("_")),
+                x,
+                y_reg: (0..n).map(|i| (i % 5) as f64).collect(),
+                y_bin: y_multi.iter().map(|c| if *c == 0.0 { 0.0 } else { 1.0 }).collect(),
+                y_multi,
                 unit: 1.0,
                 off: 0.0,
             },
